@@ -60,6 +60,37 @@ def r_memo(prog, tier):
                     comps += ['tuple(%s)' % a for a in comps] + [a[6:-1] for a in comps if a.startswith('tuple(')]
                     args = [unparse(a) for a in call.args] + [unparse(k.value) for k in call.keywords]
                     missing = [a for a in args if a not in comps and not a.startswith(("'", '"')) and not a.isdigit()]
+                    # an argument computed from components of the key alone (and module-level names) is covered by the key
+                    kcomps = list(key.elts) if isinstance(key, ast.Tuple) else [key]
+                    ktexts = set(unparse(e_) for e_ in kcomps)
+
+                    def _uncovered_locals(e_, depth=0):
+                        out_, bound_ = set(), set()
+                        for x in ast.walk(e_):
+                            if isinstance(x, ast.comprehension):
+                                bound_ |= set(y.id for y in ast.walk(x.target) if isinstance(y, ast.Name))
+                            if isinstance(x, ast.Lambda):
+                                bound_ |= set(y.arg for y in x.args.args)
+                        todo_ = [e_]
+                        while todo_:
+                            x = todo_.pop()
+                            if isinstance(x, ast.expr) and unparse(x) in ktexts:
+                                continue            # a component of the key, as a whole
+                            if isinstance(x, ast.Name):
+                                if x.id in bound_ or not (x.id in f.locals or x.id in f.params):
+                                    continue
+                                dv = [v_ for (_, v_) in name_defs(f, x.id)] if x.id in f.locals else []
+                                if depth < 2 and len(dv) == 1 and isinstance(dv[0], ast.AST) and not _uncovered_locals(dv[0], depth + 1):
+                                    continue        # a local that is itself a function of key components
+                                out_.add(x.id)
+                                continue
+                            todo_.extend(ast.iter_child_nodes(x))
+                        return out_
+                    still = []
+                    for a_node in list(call.args) + [k.value for k in call.keywords]:
+                        if unparse(a_node) in missing and _uncovered_locals(a_node):
+                            still.append(unparse(a_node))
+                    missing = still
                     obs.append(Ob('R-MEMO', f.fq, 'cache `%s` is keyed by every argument of `%s(...)`' % (unparse(D), unparse(call.func)[:40]),
                                   not missing, 'key %s covers the arguments' % unparse(key) if not missing else
                                   'argument(s) %s of the cached computation are not part of the key `%s`: results for different '
@@ -119,6 +150,32 @@ def r_openmode(prog, tier):
                 obs.append(Ob('R-OPENMODE', f.fq, 'output file `%s` is opened for writing' % unparse(n)[:50], not bad,
                               'mode %s' % vals if not bad else 'mode %s: what an earlier run left in the file stays in front of '
                               'the new output' % bad, construct='mode:' + unparse(n)[:50], line=n.lineno, nontrivial=False))
+    # a grammar writer writes each of its files whenever it runs: whether a file is (re)written depends on the options only,
+    # never on the content (an empty lexicon still gets its - empty - file; otherwise a reader finds none, or an old one)
+    for f in sorted(prog.modules['grammaroutput'].funcs.values(), key=lambda x: x.fq):
+        cfg = f.cfg
+        for m_ in cfg.eval_nodes():
+            if m_.kind != 'with':
+                continue
+            for it in m_.ast.items:
+                c = it.context_expr
+                if not (isinstance(c, ast.Call) and unparse(c.func) in ('io.open', 'open') and c.args):
+                    continue
+                conds = [a for a in cfg.assumes_at(m_.id)]
+                def _refuses(a):
+                    # the other outcome of the condition ends in a raise: the writer refuses the input as a whole
+                    for r_ in cfg.eval_nodes():
+                        if r_.kind == 'stmt' and isinstance(r_.ast, ast.Raise):
+                            if any(b.ast is a.ast and b.pol != a.pol for b in cfg.assumes_at(r_.id)):
+                                return True
+                    return False
+                content = [a for a in conds if f.kwarg not in [x.id for x in ast.walk(a.ast) if isinstance(x, ast.Name)]
+                           and any(isinstance(x, ast.Name) and x.id in f.params for x in ast.walk(a.ast)) and not _refuses(a)]
+                if content:
+                    obs.append(Ob('R-OPENMODE', f.fq, 'output file `%s` is written whenever the writer runs' % unparse(c)[:50], False,
+                                  'the file is opened only under `%s`, a condition on the data: for the other case no file is '
+                                  'written and a reader finds none, or what an earlier run left there' % unparse(content[0].ast)[:50],
+                                  construct='mode-cond:' + unparse(c)[:50], line=m_.lineno))
     return obs, {}
 
 
@@ -170,6 +227,23 @@ def r_literals(prog, tier):
             obs.append(Ob('R-LITERALS', mname + '.' + nm, 'no two string literals of table %s run together' % nm, not bad,
                           '%d entries, %d line-wrapped literals checked' % (hi - lo + 1, len(hits)) if not bad else '; '.join(bad),
                           construct='lit:' + nm, line=lo, nontrivial=bool(hits)))
+    # the inventories nest: quotes and brackets are paired punctuation, paired punctuation is punctuation
+    try:
+        vals = dict((nm, prog.const_value('trees', nm)) for nm in ('QUOTES', 'COMMA', 'BRACKETS', 'PAIRPUNCT', 'PUNCT'))
+    except (Unrecognised, AnalysisError, Exception) as e:
+        vals = None
+        obs.append(Ob('R-LITERALS', 'trees.PUNCT', 'the punctuation inventories nest', None,
+                      'inventories are not built from literals this rule can evaluate (%s)' % type(e).__name__,
+                      construct='lit-nest'))
+    if vals is not None:
+        sets_ = dict((k, set(v.keys()) if isinstance(v, dict) else set(v)) for k, v in vals.items())
+        for small, big in (('QUOTES', 'PAIRPUNCT'), ('BRACKETS', 'PAIRPUNCT'), ('PAIRPUNCT', 'PUNCT'), ('COMMA', 'PUNCT')):
+            missing = sorted(sets_[small] - sets_[big])
+            obs.append(Ob('R-LITERALS', 'trees.' + big, 'every token of trees.%s is in trees.%s' % (small, big), not missing,
+                          '%d of %d' % (len(sets_[small]), len(sets_[small])) if not missing else
+                          '%s are in %s but not in %s: punctuation_symetrify still treats them as paired punctuation while '
+                          'punctuation_verylow / punctuation_root / punctuation_delete no longer see punctuation in them'
+                          % (missing[:6], small, big), construct='lit-nest:%s:%s' % (small, big)))
     return obs, {}
 
 
@@ -374,7 +448,14 @@ def _children_count_bound(prog, f, p, at):
         if isinstance(v, ast.AST) and unparse(v) in lists:
             lists.add(nm)
     best = None
-    for (fa, _) in facts_at(cfg, at):
+    from ..core import no_kill_between
+    from ..events import link_events
+    changes = [e.node for e in link_events(prog, f) if e.kind in ('ATT', 'DET', 'CLR', 'OTHER', 'PERM')
+               and unparse(getattr(e, 'q', None) or getattr(e, 'p', None) or ast.Constant(0)) == p]
+    for (fa, nid_) in facts_at(cfg, at):
+        # a fact about the child list is stale once the list has been changed on the way
+        if any(c_ in cfg.between(nid_, at) or c_ == nid_ for c_ in changes) or not no_kill_between(cfg, nid_, at, [p + '.children']):
+            continue
         k = None
         if fa[0] == 'opaque' and fa[2] is False and fa[1] in ('trees.has_children(%s)' % p, 'has_children(%s)' % p):
             k = 0
@@ -467,6 +548,53 @@ def r_leafguard(prog, tier):
                                               'the recursive call is made only when more than one token lies below `%s`: a unary '
                                               'node (or chain) above a single token is treated like the token itself' % X,
                                               construct='leaf-tokens:' + unparse(x)[:50], line=m.lineno))
+    # uncollapsing: the label of a token can hold a collapsed chain as well (NP+NN), so the `+` loop is passed on every way
+    # out - an early return for nodes without children is NOT harmless here
+    try:
+        f = prog.func('transform', '_uncollapse_unary_chains')
+    except Unrecognised:
+        f = None
+    if f is not None:
+        cfg = f.cfg
+        plus = [t.id for t in cfg.nodes if t.kind in ('test', 'assume') and "'+'" in unparse(t.ast).replace('"', "'")
+                and 'label' in unparse(t.ast)]
+        plus += [m.id for m in cfg.eval_nodes() if m.kind == 'stmt' and isinstance(m.ast, ast.Assign) and "'+'" in
+                 unparse(m.ast.value).replace('"', "'") and 'label' in unparse(m.ast.value)]
+        if plus:
+            exits = [p_ for p_ in cfg.pred[cfg.exit] if cfg.nodes[p_].kind == 'stmt' and isinstance(cfg.nodes[p_].ast, ast.Return)]
+            reach = cfg.reach(cfg.entry, avoid=frozenset(plus))
+            early = [p_ for p_ in exits if p_ in reach]
+            if early:
+                nd = cfg.nodes[early[0]]
+                conds = [('' if a.pol else 'not ') + unparse(a.ast)[:40] for a in cfg.assumes_at(nd.id)]
+                n += 1
+                obs.append(Ob('R-LEAFGUARD', f.fq, 'every node, tokens included, has its label examined for a collapsed chain', False,
+                              '`%s` (line %d, under %s) comes before the label is searched for `+`: a chain that was collapsed into '
+                              'a token (NP+NN) is never restored' % (unparse(nd.ast), nd.lineno, conds),
+                              construct='leaf-uncollapse', line=nd.lineno))
+            else:
+                obs.append(Ob('R-LEAFGUARD', f.fq, 'every node, tokens included, has its label examined for a collapsed chain', True,
+                              'no return comes before the search for `+`', construct='leaf-uncollapse', line=f.node.lineno))
+    # the top-down oracle walks every node: a sentence of one token can still have unary nodes above the token
+    f = prog.func('transitions', 'topdown')
+    cfg = f.cfg
+    walks = [t.id for t in cfg.eval_nodes() if t.kind == 'iter' and 'preorder(%s)' % f.params[0] in unparse(t.ast.iter)]
+    if walks:
+        exits = [p_ for p_ in cfg.pred[cfg.exit] if cfg.nodes[p_].kind == 'stmt' and isinstance(cfg.nodes[p_].ast, ast.Return)]
+        reach = cfg.reach(cfg.entry, avoid=frozenset(walks))
+        early = [p_ for p_ in exits if p_ in reach]
+        verdict, why = True, 'every return lies behind the walk over all nodes'
+        if early:
+            nd = cfg.nodes[early[0]]
+            conds = [('' if a.pol else 'not ') + unparse(a.ast)[:40] for a in cfg.assumes_at(nd.id)]
+            tokenish = any('terminals' in c_ or 'len(' in c_ for c_ in conds)
+            verdict = False if (tokenish and not prog.opaque_calls(f, [f.params[0]])) else None
+            why = '`%s` (line %d, under %s) leaves before the walk over the nodes: the unary nodes above a single token ' \
+                  '(at least the root) get no transition and the replay ends with the bare token' % (
+                      unparse(nd.ast)[:40], nd.lineno, conds)
+        n += 1
+        obs.append(Ob('R-LEAFGUARD', f.fq, 'the top-down oracle visits every node of every sentence', verdict, why,
+                      construct='leaf-topdown', line=f.node.lineno))
     return obs, {'guarded_early_returns': n}
 
 
@@ -506,4 +634,32 @@ def r_nodeline(prog, tier):
                       construct='nodeline:' + unparse(n.ast)[:60], line=n.lineno))
     if not found:
         raise Unrecognised('export reader: node-line test (`#` + digits) not found')
+    # export 3 or 4: decided by what stands in the fifth column (a parent number = export 3, no lemma column), not by the
+    # number of columns - lines may carry secondary edges and comments after the parent number
+    g = prog.func('treeinput', 'export_parse_line')
+    gc = g.cfg
+    ins = [m for m in gc.eval_nodes() if m.kind == 'stmt' and isinstance(m.ast, (ast.Assign, ast.Expr))
+           and 'DEFAULT_LEMMA' in unparse(m.ast) and ('[1:1]' in unparse(m.ast) or '.insert(1' in unparse(m.ast))]
+    for m in ins:
+        conds = [a for a in gc.assumes_at(m.id)]
+        txt = ' and '.join(unparse(a.ast) for a in conds)
+        by_digit = any('.isdigit()' in unparse(a.ast) and '[4]' in unparse(a.ast) for a in conds)
+        by_len = any('len(' in unparse(a.ast) for a in conds)
+        obs.append(Ob('R-NODELINE', g.fq, 'an export-3 line is recognised by the parent number in its fifth column', 
+                      True if (by_digit and not by_len) else (False if (by_len and not by_digit) else None),
+                      'dummy lemma inserted under `%s`' % txt[:60] if by_digit and not by_len else
+                      'the lemma column is inserted under `%s`: a line with secondary edges or a comment after the parent number has '
+                      'more columns and is taken for export 4' % txt[:60] if by_len and not by_digit else 'test `%s` not recognised' % txt[:60],
+                      construct='export-v3', line=m.lineno))
+    # replace_chars maps every bracket of the table in every field: the loop over the table is never left early
+    h = prog.func('trees', 'replace_chars')
+    hc = h.cfg
+    for lp in [t for t in hc.eval_nodes() if t.kind == 'iter' and len(h.params) > 1 and h.params[1] in unparse(t.ast.iter)]:
+        leaves = [b for b in hc.eval_nodes() if b.kind == 'stmt' and isinstance(b.ast, (ast.Break, ast.Return)) and lp.id in b.loops
+                  and (isinstance(b.ast, ast.Return) or b.loops[-1] == lp.id)]
+        obs.append(Ob('R-NODELINE', h.fq, 'replace_chars applies every entry of the table to a field', not leaves,
+                      'the loop over the table runs to its end' if not leaves else
+                      '`%s` (line %d) leaves the loop over the table after the first bracket that occurs: a token like `(1]` or '
+                      '`f(x)=[y]` keeps its other brackets' % (unparse(leaves[0].ast), leaves[0].lineno),
+                      construct='replace-all', line=lp.lineno))
     return obs, {}
